@@ -111,10 +111,12 @@ def roundtrip_part(ctx: vlib.Ctx):
     from harness import gen, tycorr, tyoracle
     from mashumaro.codecs.basic import BasicDecoder, BasicEncoder
     ctx.theorems("props/C01_roundtrip.vo", ["C01_roundtrip", "C01_conf_ord_is_conf", "C01_roundtrip_codec", "C01_roundtrip_total"])
+    ctx.coqchk(["VerifProps.C01_roundtrip", "VerifProps.C01_tz"])
     ctx.trusted.append("TyModel.v (cp/pk, cu/uk) tied by vm_compute correspondence; stdlib render/parse pairs are oracle functions whose "
                        "round-trip law is a hypothesis of the theorem restricted to the values present (atoms_ok)")
-    ctx.assumptions.append("unions are decided under C11; abstract collections / leaf-typed mapping keys by the oracle only. NamedTuple (as_list form) and "
-                           "TypedDict (total / total=False / Required / NotRequired) are inside the Coq grammar (theorems + correspondence); the round-trip "
+    ctx.assumptions.append("unions are decided under C11. Abstract / special collection classes (Sequence, Mapping, Deque, OrderedDict, DefaultDict (factory not part of the value), "
+                           "MappingProxyType, Counter, ChainMap) and leaf/enum/bytes-typed mapping keys (under vals_ok: wire forms of the keys present pairwise distinct) are inside the Coq grammar. NamedTuple (as_list form), "
+                           "TypedDict (total / total=False / Required / NotRequired) and tuples with an unpacked segment are inside the Coq grammar (theorems + correspondence); the round-trip "
                            "theorem states = on TypedDict values whose keys are in the decoder's order (conf_ord), the oracle compares with == on values "
                            "in shuffled insertion order; namedtuple_as_dict, generic NamedTuples/TypedDicts and collections.namedtuple are oracle only")
     cases, bad, log = tycorr.run(ctx, "c01_ty", ctx.budget(50, 400), 3, depth=3, foreign=1)
